@@ -275,7 +275,8 @@ func c18Run(t *fw.T) {
 	r := t.Rng
 	var src []byte
 	if r.Intn(3) > 0 {
-		prog := gen.JSProgram(r, gen.JSOpts{CtxNames: r.Intn(2) == 0})
+		ctx := r.Intn(2) == 0
+		prog := gen.JSProgram(r, gen.JSOpts{CtxNames: ctx, YieldName: ctx && r.Intn(2) == 0, NoModuleItems: r.Intn(2) == 0})
 		s, _ := gen.JSSpell(prog, gen.JSStyle{Parens: r.Intn(3), Semi: r.Intn(3), WS: r.Intn(2), Seed: r.Int63(), Bang: []int{0, 0, 10, 40}[r.Intn(4)]})
 		if r.Intn(10) == 0 {
 			s = "#!/usr/bin/env node\n" + s // kept as a Comment statement (module goal only)
